@@ -212,7 +212,16 @@ var (
 func toUpperUnderscore(ident string) string {
 	ident = leadingOrTrailing_.ReplaceAllString(ident, "")
 	ident = consecutive_.ReplaceAllString(ident, "${1}_${2}")
-	ident = wordBoundary1.ReplaceAllString(ident, "${1}_${2}")
+	// (the matches of this pattern can overlap, as in "userIdNo": repeat until
+	// every boundary is marked, like the look-around pattern of the official
+	// implementation does in one pass.)
+	for {
+		var next = wordBoundary1.ReplaceAllString(ident, "${1}_${2}")
+		if next == ident {
+			break
+		}
+		ident = next
+	}
 	ident = wordBoundary2.ReplaceAllString(ident, "${1}_${2}")
 	ident = wordBoundary3.ReplaceAllString(ident, "${1}_${2}")
 	return strings.ToUpper(ident)
